@@ -1,5 +1,5 @@
 // ======================================================================================
-// units/C15/il_core.rs — falcon::il core: the REAL type definitions (extracted), the
+// units/C15/il_core.rs - falcon::il core: the REAL type definitions (extracted), the
 // graph::Vertex / graph::Edge impls for Block / Edge, the data invariants `block_wf`, `cfg_wf`,
 // `function_wf`, `program_wf`, and the contracts of the read-only accessors.
 // To be included inside `pub mod il { use super::*; ... }`; see units/C15/PHASE1_DONE.
